@@ -103,7 +103,7 @@ fn draw_chunk_size(ctx: &mut Ctx, edge: bool) -> u32 {
             _ => ctx.ch.draw("op.arg.cszv", 1 << 32) as u32,
         };
     }
-    let k = ctx.ch.weighted("op.arg.csz", &[3, 3, 2, 2, 2, 2, 2, 3, 2, 1, 2]);
+    let k = ctx.ch.weighted("op.arg.csz", &[3, 3, 2, 2, 2, 2, 2, 3, 2, 1, 2, 2, 1]);
     match k {
         0 => 128,
         1 => 1,
@@ -115,7 +115,9 @@ fn draw_chunk_size(ctx: &mut Ctx, edge: bool) -> u32 {
         7 => ctx.ch.range("op.arg.cszv", 1, 300) as u32,
         8 => 4096,
         9 => 65536,
-        _ => 0x7FFF_FFFF,
+        10 => 0x7FFF_FFFF,
+        11 => *ctx.ch.pick("op.arg.cszv", &[255u32, 256, 257, 65535, 65537, 16_777_215, 16_777_216, 0x7FFF_FFFE, 5, 64]),
+        _ => ctx.ch.range("op.arg.cszv", 1, 0x7FFF_FFFF) as u32,
     }
 }
 
